@@ -485,8 +485,8 @@ func c05R5(c *Ctx) {
 			sort.Strings(diff)
 			c.x5Decide(R, "C05-R5|accept verdicts|"+names[0]+" vs "+names[i], token.NoPos, same, "every non-OK verdict is handled alike (served / rejected / answered)", "the entry points handle a verdict differently: "+strings.Join(diff, "; "))
 		}
-		if len(names) < 3 {
-			c.unresolved(R, "acceptHeader callers", fmt.Sprintf("expected 3, found %d", len(names)))
+		if len(names) < 1 { // anti-vacuity only: today three entry points; they may share one screening helper
+			c.unresolved(R, "acceptHeader callers", fmt.Sprintf("expected at least one, found %d", len(names)))
 		}
 	}
 	c.Floor(R, 25)
